@@ -819,7 +819,7 @@ impl RefRt {
     fn launch_legacy(&self, c: &Cmd) {
         match c {
             Cmd::Async(id, task) => {
-                let g = self.w.lock().unwrap().new_group(Some(0));
+                let g = self.w.lock().unwrap().new_group(Some(self.group));
                 let mut rt = self.child(g);
                 rt.legacy = true;
                 rt.visible(vec![*id], task.clone());
@@ -828,6 +828,16 @@ impl RefRt {
             Cmd::And(a, b) => {
                 self.launch_legacy(a);
                 self.launch_legacy(b);
+            }
+            // the capability's `map_event`: every event of the tasks below passes through the map
+            Cmd::MapEvent(id, c) => {
+                let g = {
+                    let mut w = self.w.lock().unwrap();
+                    let g = w.new_group(Some(self.group));
+                    w.groups[g].event_mark = Some(*id);
+                    g
+                };
+                self.child(g).launch_legacy(c);
             }
             _ => {}
         }
